@@ -383,12 +383,47 @@ func c20RunMatch(c *c20MatchCase, ctl *metric.Ctl, st *c20Stats) {
 			}
 		}
 	}
+	// evaluating a rule set / an exception / a rule is read-only on the record: the caller's bytes are compared
+	// with a copy afterwards
+	unchanged := func(via string, buf []byte) {
+		st.steps++
+		if string(buf) != data {
+			st.add(&c20Viol{Kind: "record_altered", Match: c, Via: via, Inverted: inverted, Short: c.Short,
+				Panic: fmt.Sprintf("input %q, afterwards %q", data, buf), Harness: "antispam-match"})
+		}
+	}
+	// (0) the real RuleSet.Match directly
+	{
+		rs0 := rs
+		rs0.Rules = append([]matchrule.Rule(nil), rs.Rules...)
+		for i := range rs0.Rules {
+			rs0.Rules[i].Values = append([]string(nil), rs.Rules[i].Values...)
+		}
+		rs0.Prepare()
+		buf := []byte(data)
+		got := rs0.Match(buf)
+		unchanged("match", buf)
+		if got != c.Mm {
+			st.drift++
+			if len(st.driftSample) < 5 {
+				b, _ := json.Marshal(c)
+				st.driftSample = append(st.driftSample, fmt.Sprintf("RuleSet.Match=%v, model match=%v; case %s", got, c.Mm, b))
+			}
+		}
+	}
 	// (a) exception checked against the event bytes
-	exc := Exceptions{{RuleSet: rs}}
+	rsA := rs
+	rsA.Rules = append([]matchrule.Rule(nil), rs.Rules...)
+	for i := range rsA.Rules {
+		rsA.Rules[i].Values = append([]string(nil), rs.Rules[i].Values...)
+	}
+	exc := Exceptions{{RuleSet: rsA}}
 	exc.Prepare()
 	a := NewAntispammer(&Options{MaintenanceInterval: time.Second, Threshold: 1, UnbanIterations: 4, Exceptions: exc,
 		Logger: zap.NewNop(), MetricsController: ctl})
-	judge("event", a.IsSpam("1", "c20src", false, []byte(data), now, nil), "exception", false)
+	bufA := []byte(data)
+	judge("event", a.IsSpam("1", "c20src", false, bufA, now, nil), "exception", false)
+	unchanged("event", bufA)
 	// (b) exception checked against the source name
 	rs2 := rs
 	rs2.Rules = append([]matchrule.Rule(nil), rs.Rules...)
@@ -412,7 +447,9 @@ func c20RunMatch(c *c20MatchCase, ctl *metric.Ctl, st *c20Stats) {
 	a3 := NewAntispammer(&Options{MaintenanceInterval: time.Second, Threshold: 1, UnbanIterations: 4,
 		Rules:  Rules{{Name: "c20unl", Threshold: -1, DoIfChecker: chk}},
 		Logger: zap.NewNop(), MetricsController: ctl})
-	judge("rule", a3.IsSpam("1", "c20src", false, []byte(data), now, nil), "unlimited_rule", true)
+	bufC := []byte(data)
+	judge("rule", a3.IsSpam("1", "c20src", false, bufC, now, nil), "unlimited_rule", true)
+	unchanged("rule", bufC)
 	st.matchCases++
 }
 
